@@ -265,6 +265,17 @@ Theorem C09_check_then_take_across_yield_refuted_pinned : let s := final (estep 
 Proof. exact check_then_take_across_yield_refuted_pinned. Qed.
 Print Assumptions C09_check_then_take_across_yield_refuted_pinned.
 
+(* audit 3 #15: C09_entry_mutex is not an island - the extended machine projects to Lock, so every `reach` theorem of
+   this file (FIFO hand-over, no barging, cancelled waiters, arrival order, quiescence) holds of its lock component *)
+Theorem C09_entry_projects_to_lock : forall fa s, ereach fa s -> reach fa (lock s).
+Proof. exact entry_projects_to_lock. Qed.
+Print Assumptions C09_entry_projects_to_lock.
+
+Theorem C09_entry_no_free_lock_with_waiters : forall fa s, ereach fa s ->
+  (owner (lock s) = None -> waiters (lock s) = []) /\ subseq (waiters (lock s)) (enq (lock s)).
+Proof. exact entry_no_free_lock_with_waiters. Qed.
+Print Assumptions C09_entry_no_free_lock_with_waiters.
+
 (* on the regenerated code: apart from binding `task`, the check is the first statement of the entry segment and
    occurs nowhere else (LockImp.ckif_first), so the segment that tests and takes is entered only after the one
    possible yield; run from a cancelled scope it ends at the check, for every state *)
